@@ -2,6 +2,7 @@ package symex
 
 import (
 	"fmt"
+	"math/big"
 	"go/token"
 	"strings"
 
@@ -203,7 +204,11 @@ func (p *Path) vpIntrinsic(caller *frame, fn *ssa.Function, name string, args []
 	case "vp_TokDecimals":
 		t := args[0].(Str).tok
 		if t == nil {
-			p.abortf("vp_TokDecimals: not a format token")
+			cs := p.strArg(args[0], "numeral")
+			if i := strings.IndexByte(cs, '.'); i >= 0 {
+				return intConst(int64(len(cs) - i - 1))
+			}
+			return intConst(0)
 		}
 		switch t.Format {
 		case "%d", "%.0f":
@@ -218,7 +223,12 @@ func (p *Path) vpIntrinsic(caller *frame, fn *ssa.Function, name string, args []
 		// the integer the numeral denotes after removing the decimal point
 		t := args[0].(Str).tok
 		if t == nil {
-			p.abortf("vp_TokScaled: not a format token")
+			cs := strings.ReplaceAll(p.strArg(args[0], "numeral"), ".", "")
+			bi, ok := new(big.Int).SetString(cs, 10)
+			if !ok {
+				p.abortf("vp_TokScaled: %q is not a numeral", cs)
+			}
+			return Struct{smt.ConstInt(bi)}
 		}
 		switch t.Format {
 		case "%d":
